@@ -39,7 +39,8 @@ ASSUMPTIONS = [
     'FILES-CONDITION|GLOB-PATTERN`, `help setup dir`, `help assert dir-contents|exists`',
     'after a HARD_ERROR inside a FILE-LIST the entries listed before the failing one have been applied ("Files are '
     'created/modified in the order listed"); intermediate directories of the failing entry itself are tolerated',
-    'not generated (manual silent): symlinks inside a populated directory or inside a dir-contents-of source; '
+    'not generated (manual silent): symlinks inside a populated directory; for symlinks inside a dir-contents-of '
+    'source no particular treatment is demanded, only uniformity over depth, faithful contents and an untouched source; '
     'dir-contents-of onto a directory that already has one of the copied names; FILE-NAMEs with `.`, empty components, '
     'trailing `/`, or `..` inside a component (a..b); symlink loops; absolute symlink targets; negative depths',
     'not judged (manual silent): whether a HARD_ERROR of a file-matcher inside every/any/-selection/-with-pruned/'
@@ -859,6 +860,8 @@ def cases(tier, seed):
         yield c
     for i in range(len(LITERALS)):
         yield {'kind': 'lit', 'n': i}
+    for c in copy_links_cases():
+        yield c
     for c in core_match_cases():
         yield c
     rng = common.rng_for(seed, ID, 'match')
@@ -1302,8 +1305,109 @@ def run_lit(case, ctx):
     return {'classes': [('lit', lit['name'], ident)], 'viol': viol, 'inconclusive': inconc, 'evaluations': 1}
 
 
+# -----------------------------------------------------------------------------------------------------
+# dir-contents-of a source that holds symbolic links.  The manual says "a copy of the contents of PATH (recursive)"
+# and is silent on links, so no particular treatment is demanded - only what follows from the statement whatever
+# the treatment is: (a) one treatment at every depth (the tree a source denotes does not depend on where in the
+# source an entry sits); (b) an entry copied as a regular file has the contents of the file the link leads to;
+# (c) appending to a copied entry changes nothing outside the populated directory (the source is untouched).
+# -----------------------------------------------------------------------------------------------------
+_LINK_APPENDS = [[], ['ltop'], ['sub/lrel'], ['sub/lup'], ['sub/labs'], ['sub/deep/labs2', 'ltop'],
+                 ['sub/labs', 'sub/lup', 'sub/lrel', 'ltop']]
+
+
+def copy_links_cases():
+    for k, appends in enumerate(_LINK_APPENDS):
+        for form in (0, 1, 2):
+            yield {'kind': 'copy-links', 'appends': appends, 'form': form, 'n': k}
+
+
+def run_copy_links(case, ctx):
+    from vf.driver import snapshot_tree, write_files
+    ses = ctx.get_session()
+    d = ses.new_case_dir({})
+    src = os.path.join(d, 'srcL')
+    write_files(d, {'srcL/top.txt': 'T\n', 'srcL/sub/f.txt': 'F\n', 'srcL/sub2/g.txt': 'G\n',
+                    'srcL/sub/deep/h.txt': 'H\n'})
+    links = {'ltop': 'top.txt', 'ldtop': 'sub2', 'sub/lrel': 'f.txt', 'sub/lup': '../top.txt',
+             'sub/labs': os.path.join(src, 'top.txt'), 'sub/ldir': '../sub2', 'sub/deep/labs2': os.path.join(src, 'sub', 'f.txt'),
+             'sub/deep/lup2': '../../top.txt', 'sub/deep/ldir2': os.path.join(src, 'sub2')}
+    for rel, target in links.items():
+        os.symlink(target, os.path.join(src, rel))
+    file_links = {'ltop': 'T\n', 'sub/lrel': 'F\n', 'sub/lup': 'T\n', 'sub/labs': 'T\n', 'sub/deep/labs2': 'F\n',
+                  'sub/deep/lup2': 'T\n'}
+    dir_links = ['ldtop', 'sub/ldir', 'sub/deep/ldir2']
+    form = case['form']
+    if form == 0:
+        lines = ['dir d = dir-contents-of -rel-home srcL']
+    elif form == 1:
+        lines = ['dir d', 'dir d += dir-contents-of -rel-home srcL']
+    else:
+        lines = ['dir d = {', '  dir e = dir-contents-of -rel-home srcL', '}']
+    root = 'd' if form != 2 else 'd/e'
+    for a in case['appends']:
+        lines.append('file %s/%s += "+"' % (root, a))
+    text = '[setup]\n' + '\n'.join(lines) + '\n'
+    before = snapshot_tree(src)
+    ident, r = run_text(ses, d, text, keep=True)
+    viol = []
+    inconc = ['watchdog'] if r.timed_out else []
+
+    def bad(msg, **kw):
+        kw.update({'case_text': text, 'source_links': links, 'observed': r.brief()})
+        viol.append({'what': 'C15 dir-contents-of with links [%s]: %s' % ('+'.join(case['appends']) or 'no append',
+                                                                        msg), 'detail': kw})
+
+    evaluations = 0
+    if not r.timed_out:
+        if r.exc is not None:
+            bad('exception escaped')
+        after = snapshot_tree(src)
+        ctx.count('c15.copy_links_source_unchanged_checks')
+        evaluations += 1
+        if after != before:
+            diff = {k: [before.get(k), after.get(k)] for k in set(before) | set(after) if before.get(k) != after.get(k)}
+            bad('the SOURCE directory changed (populating / appending to the copy must not write outside the '
+                'populated directory): %r' % diff)
+        if ident not in ('PASS', 'HARD_ERROR'):
+            bad('outcome %s (exactly the denoted tree, or HARD_ERROR)' % ident)
+        sds = _sandbox_of(r)
+        if sds is not None and os.path.isdir(os.path.join(sds, 'act', root)):
+            top = os.path.join(sds, 'act', root)
+
+            def kind(rel):
+                p = os.path.join(top, rel)
+                return 'link' if os.path.islink(p) else 'dir' if os.path.isdir(p) else 'file' if os.path.isfile(p) \
+                    else 'absent'
+
+            kf = {rel: kind(rel) for rel in file_links}
+            kd = {rel: kind(rel) for rel in dir_links}
+            ctx.count('c15.copy_links_uniformity_checks')
+            evaluations += 1
+            if ident == 'PASS' and (len(set(kf.values())) != 1 or len(set(kd.values())) != 1):
+                bad('links in the source are not treated alike at every depth: links to files copied as %r, links to '
+                    'directories as %r' % (kf, kd))
+            if ident == 'PASS':
+                for rel, want in file_links.items():
+                    if kf[rel] == 'file':
+                        with open(os.path.join(top, rel)) as f:
+                            got = f.read()
+                        exp = want + ('+' if rel in case['appends'] else '')
+                        if got != exp:
+                            bad('copied entry %s holds %r, expected %r' % (rel, got, exp))
+                for rel in dir_links:
+                    if kd[rel] == 'dir' and not os.path.isfile(os.path.join(top, rel, 'g.txt')):
+                        bad('directory copied from the link %s lacks the contents of its target' % rel)
+    ses.clean_tmp()
+    ses.drop(d)
+    return {'classes': [('copy-links', case['form'], len(case['appends']), ident)], 'viol': viol,
+            'inconclusive': inconc, 'evaluations': evaluations}
+
+
 def run_case(case, ctx):
     k = case['kind']
+    if k == 'copy-links':
+        return run_copy_links(case, ctx)
     if k == 'match':
         return run_match(case, ctx)
     if k == 'pop':
